@@ -2,7 +2,7 @@
 
 1. build: translate (Gen/Emitters.v = every static emission site of /repo, and everything Props/C01.v composes) +
    Props/C01.vo + Print Assumptions.  Props/C01.v holds the partial theorem C01_partial_K (header / guard / lexical codes /
-   verdict+exit), the Emitters ties (only check_header.py emits INVALID_HEADER, ...) and C01_refuted_K1.
+   verdict+exit), the Emitters ties (only check_header.py emits INVALID_HEADER, ...) and C01_accepted_K1.
 2. search = the property itself on the implementation: conforming programs of the family G (tools/harness/family.py, .c and
    .h), one third of them boundary programs sitting exactly on a limit (family_ext.py), each analysed by /repo's code
    (impl.analyse: Lexer + Registry.run as main() does) and a tenth also through the real command line (main() with the file on
@@ -61,6 +61,8 @@ def report_family(run, g, data):
     families this check was asked to record: until the integrator lists it, it is counted and shown as a candidate (evidence +
     a CANDIDATE-FINDING line), it does not fail the run."""
     fid = fx.K_IDS[g]
+    if g == "K1":
+        fid = None          # K1 is repaired in the source (INT_LITERAL_PATTERN): a recurrence is a VIOLATION, never suppressed
     if g == "K5" and not run.known(fid):
         CANDIDATES["n"] += 1
         if len(CANDIDATES["samples"]) < 4:
@@ -233,7 +235,7 @@ def k_grids(run, seed, tier, pool):
         old = table.get(cell)
         table[cell] = got if old in (None, got) else "MIXED"
         if tab == "K1":
-            exp = fx.k1_expected(cell)
+            exp = False         # K1 repaired: no hexadecimal constant of the neighbourhood is flagged (fx.k1_expected = the old boundary)
             k1_in += exp
             k1_out += (not exp)
             flagged_k1 = v.startswith("known:") and "K1" in det["families"]     # the host may also hold a K2 instance of its own
@@ -242,8 +244,8 @@ def k_grids(run, seed, tier, pool):
     show = ("0xb3ba", "0XBB98Bl", "0xb1", "0xb1f", "0xb1l", "0xb0u", "0xab1", "0x0b1", "0xbb", "0xba", "0xBb1", "0xbB9f")
     t4 = T["K4"]
     tables = {
-        "K1": {"rule": "0[xX][bB]+[0-9]+T is flagged INVALID_SUFFIX iff T (everything after the decimal run) is not one of the tool's integer "
-                       "suffixes; every other hexadecimal constant is accepted (expectation computed from the tool's own suffix table and compared)",
+        "K1": {"rule": "repaired: every hexadecimal constant 0[xX][bB]+[0-9]+T of the neighbourhood of the former finding K1 is accepted "
+                       "(before the repair it was flagged INVALID_SUFFIX iff T was not one of the tool's integer suffixes)",
                "expected_flagged": k1_in, "expected_accepted": k1_out, "cells": {c: T["K1"][c] for c in show if c in T["K1"]}},
         "K2K3": summarise_unary(T["K2K3"]),
         "K4": {"flagged": sorted(k for k, v in t4.items() if v.startswith("flagged")),
